@@ -146,6 +146,13 @@ def vclose(got, exp, tol=1e-9):
     return all(abs(F(g) - F(e)) <= F(tol) * s for g, e in zip(got, exp))
 
 
+def second_level_zero(U, p):
+    """True iff the second-derivative control points of A3.3 over the whole knot vector divide by a zero knot difference
+    (a run of p equal knots: an interior knot of multiplicity = degree for a clamped knot vector)"""
+    n = len(U) - p - 1
+    return any(U[i + p + 1] == U[i + 2] for i in range(0, n - 2))
+
+
 def max_interior_mult(U, p):
     ks = U[p + 1:len(U) - p - 1]
     return max([ks.count(k) for k in ks] + [0])
@@ -552,8 +559,13 @@ class HodographSurface(Family):
             if rng.random() < 0.8:          # mostly degrees >= 2 (degree-0 splines do not exist in the library)
                 while c["pu"] < 2 or c["pv"] < 2:
                     c = gen_surface(rng, rational=False)
+            # known-finding class (a knot of multiplicity = degree): keep it present but rare
+            while (second_level_zero(c["Uu"], c["pu"]) or second_level_zero(c["Uv"], c["pv"])) and min(c["pu"], c["pv"]) >= 2 and rng.random() < 0.8:
+                c = gen_surface(rng, rational=False)
+                while c["pu"] < 2 or c["pv"] < 2:
+                    c = gen_surface(rng, rational=False)
             c["uvs"] = [(param(rng, c["Uu"], c["pu"])[0], param(rng, c["Uv"], c["pv"])[0]) for _ in range(2)]
-            c["mult_eq_degree"] = (max_interior_mult(c["Uu"], c["pu"]) >= c["pu"]) or (max_interior_mult(c["Uv"], c["pv"]) >= c["pv"])
+            c["mult_eq_degree"] = second_level_zero(c["Uu"], c["pu"]) or second_level_zero(c["Uv"], c["pv"])
             c["mindeg"] = min(c["pu"], c["pv"])
             out.append(c)
         return out
